@@ -350,6 +350,56 @@ theorem near_one_operator (l : Dist) (alpha M : Rat) (hn : NonnegProbs l) (hmass
     rw [e2] at t7
     exact t7
 
+/-- **α within `isclose` of 1 (α < 1 allowed), bitstring-function path**: the list is *not* sorted (line 17 of the source), the
+loop gathers mass `α` in dictionary order and stops within `isclose` of `α`.  Because at most `1 − α` of the mass is left out
+whatever the order, the returned value is still within `((1e-8 + 1e-5·α) + 2·(1 − α))·max|v| / α` of the exact CVaR — with
+`1 − α ≤ 1.00001e-5` that is a relative resolution of about 3e-5·max|v|.  This closes the last branch of the two public
+functions (the other three are `tolerance_bound`, `near_one_operator`, `bitstring_alpha_one`). -/
+theorem near_one_bitstring (l : Dist) (alpha M : Rat) (hn : NonnegProbs l) (hmass : mass l = 1) (hM0 : 0 ≤ M)
+    (hM : ∀ x ∈ l, rabs x.2 ≤ M) (h0 : 0 < alpha) (h1 : alpha ≤ 1) (hclose : isclose alpha 1 = true) :
+    expectationWithBitstrings l alpha = .ok (getExpectation l alpha) ∧
+    rabs (getExpectation l alpha - cvarExact l alpha) ≤ ((atol + rtol * rabs alpha) + 2 * (1 - alpha)) * M / alpha := by
+  constructor
+  · unfold expectationWithBitstrings
+    have : ¬ (alpha ≤ 0 ∨ 1 < alpha) := by grind
+    simp [this]
+  · unfold getExpectation cvarExact
+    simp only [hclose, Bool.not_true, Bool.false_eq_true, ↓reduceIte]
+    have hperm := sortByValue_perm l
+    have hn' := nonneg_perm hperm.symm hn
+    have hM' : ∀ x ∈ sortByValue l, rabs x.2 ≤ M := fun x hx => hM x (hperm.mem_iff.mp hx)
+    -- (1) the loop in dictionary order vs the greedy fill in dictionary order
+    have hL := loop_close_to_greedy alpha M hM0 l 0 0 hn hM (by grind)
+    have e1 : (0 : Rat) + greedy l (alpha - 0) = greedy l alpha := by
+      have : alpha - 0 = alpha := by grind
+      rw [this]; grind
+    rw [e1] at hL
+    -- (2) both greedy fills are within (1 − α)·M of the plain expectation
+    have hG1 : greedy l 1 = plainExpectation l := greedy_full l 1 hn (by rw [hmass]; exact Rat.le_refl)
+    have hGs1 : greedy (sortByValue l) 1 = plainExpectation l := by
+      rw [greedy_full _ 1 hn' (by rw [mass_perm hperm, hmass]; exact Rat.le_refl), plainExpectation_perm hperm]
+    have hlip := greedy_lipschitz M hM0 l alpha 1 hn hM (by grind) h1
+    have hlips := greedy_lipschitz M hM0 (sortByValue l) alpha 1 hn' hM' (by grind) h1
+    rw [hG1] at hlip
+    rw [hGs1] at hlips
+    generalize loop alpha l 0 0 = L at hL ⊢
+    generalize greedy l alpha = G at hL hlip
+    generalize greedy (sortByValue l) alpha = Gs at hlips ⊢
+    generalize plainExpectation l = P at hlip hlips
+    generalize atol + rtol * rabs alpha = tol at hL ⊢
+    have hc : 0 < alpha⁻¹ := Rat.inv_pos.mpr h0
+    rw [Rat.div_def, Rat.div_def, Rat.div_def]
+    have e : L * alpha⁻¹ - Gs * alpha⁻¹ = alpha⁻¹ * ((L - G) + ((G - P) + (P - Gs))) := by grind
+    rw [e, rabs_mul_nonneg _ _ (by grind)]
+    have t1 := rabs_add_le (L - G) ((G - P) + (P - Gs))
+    have t2 := rabs_add_le (G - P) (P - Gs)
+    have t3 : rabs (G - P) = rabs (P - G) := by
+      have : G - P = -(P - G) := by grind
+      rw [this, rabs_neg]
+    have t6 : rabs ((L - G) + ((G - P) + (P - Gs))) ≤ (tol + 2 * (1 - alpha)) * M := by grind
+    have t7 := Rat.mul_le_mul_of_nonneg_left t6 (by grind : 0 ≤ alpha⁻¹)
+    grind
+
 /-! ## Non-vacuity -/
 
 /-- 4 shots: values −2 (1 shot), 0 (2 shots), 3 (1 shot) -/
@@ -363,6 +413,8 @@ def exDist : Dist := [(1/2, 0), (1/4, 3), (1/4, -2)]
 #guard (match expectationWithBitstrings exDist (1/2) with | .ok v => decide (v = -1) | _ => false)
 #guard (match expectationWithOperator exDist (1/2) with | .ok v => decide (v = -1) | _ => false)
 #guard (match expectationWithOperator exDist 1 with | .ok v => decide (v = 1/4) | _ => false)
+#guard isclose (999999/1000000) 1 && decide ((999999/1000000 : Rat) < 1)   -- an α strictly inside (1 − 1e-5, 1) meets `near_one_*`
+#guard (match expectationWithBitstrings exDist (999999/1000000) with | .ok v => decide (rabs (v - cvarExact exDist (999999/1000000)) ≤ 1/100000) | _ => false)
 #guard (match expectationWithOperator exDist 0 with | .error .alphaOutOfRange => true | _ => false)
 
 end QVerif.Cvar
